@@ -91,6 +91,26 @@ CHECKS = {
              'thorough), categorical arrays of length <= 4 over 3 symbols.',
         technique='TLA+ spec as enumerator/oracle + TLC trace validation of recorded outputs',
         design='7/C20'),
+    'C14': dict(
+        text='Derived.tla: TLC enumerates every expression tree over + - * / ** with stored, pixel, world and derived leaves and '
+             'constants to depth 2 and computes integer-exact values for the + - * trees; each tree is installed as a derived '
+             'attribute by arithmetic on identifiers, by a user-function ComponentLink and by a parsed text expression, and read '
+             'on the whole dataset and under 5 views; it must equal the TLC values (exact trees) or element-wise scalar evaluation '
+             '(trees with / or **). The dependency half (transitive removal, update_id keeps order and values) is decided by '
+             'replaying the DataStruct.tla histories that involve derived attributes.',
+        note='Bounded: 6 attribute leaves + 2 constants, depth <= 2 (26k trees; quick samples a third of the depth-2 trees). '
+             'Float trees compared within rtol 1e-12 (array vs scalar pow differ by 1 ulp). update_id only for attributes without dependants.',
+        technique='TLA+ spec as enumerator and exact oracle + replay into real Data; DataStruct history replay',
+        design='7/C14'),
+    'C15': dict(
+        text='Coords.tla: TLC enumerates every invertible integer affine map in 1-3 dimensions over an entry set (diagonal, '
+             'triangular, permuted, fully coupled) and computes the world value at every array position integer-exactly; on a real '
+             'Data with AffineCoordinates the world attributes (whole array and 4 views), the automatically created pixel->world '
+             'and world->pixel links, direct calls of the transformation and the round trip are compared.',
+        note='Bounded: entries {-1,0,1} (thorough {-1,0,1,2}), one translation, shape (2,3,2) cut to the dimensionality. '
+             'Inverse compared within 1e-9. astropy WCS objects are outside the quantifier.',
+        technique='TLA+ spec as enumerator and exact oracle (TLC -dump) + replay into real Data',
+        design='7/C15'),
 }
 
 NOT_APPLICABLE = {}
